@@ -378,16 +378,23 @@ def run_driver(exe, stimfile, tracefile, san=False):
 PROPS = ['C%02d' % i for i in range(1, 21)]
 
 
+LAST_NAMES = set()
+
+
 def validate_trace(tracefile, workdir, tag):
     md = os.path.join(workdir, 'md_' + tag)
     rc, out = java_tlc(['-workers', '1', '-metadir', md, '-config', os.path.join(SPEC, 'Trace.cfg'),
                         os.path.join(SPEC, 'Trace.tla')], env={'TRACE': tracefile}, timeout=3600, xmx='4g')
     shutil.rmtree(md, ignore_errors=True)
+    global LAST_NAMES
     viol, hits, end = [], {}, None
+    LAST_NAMES = set()
     for v in tlaparse.values(out):
         if not v:
             continue
-        if v[0] == 'V':
+        if v[0] == 'NAMES':
+            LAST_NAMES = set('%s|%s' % (t[0], t[1]) for t in v[1])      # conjuncts whose antecedent held somewhere in this trace
+        elif v[0] == 'V':
             viol.append((v[1], v[2], v[3]))
         elif v[0] == 'H':
             hits[v[1]] = v[2]
